@@ -280,6 +280,7 @@ func checkC06(c *Ctx) error {
 	}
 	doBatch(0)
 	c06ErrorSugar(c)
+	c06StarBang(c)
 	parallel(nBatches-1, 4, func(i int) { doBatch(i + 1) })
 	c.nontrivMin = 60
 	return nil
